@@ -46,14 +46,11 @@ namespace foonathan
             explicit iteration_allocator(std::size_t block_size, Args&&... args)
             : allocator_type(block_size, detail::forward<Args>(args)...), cur_(0u)
             {
-                block_         = get_allocator().allocate_block();
-                auto cur       = static_cast<char*>(block_.memory);
-                auto size_each = block_.size / N;
+                block_ = get_allocator().allocate_block();
+                // same region boundaries as used by next_iteration() and capacity_left(),
+                // also if the block size is not divisible by N
                 for (auto i = 0u; i != N; ++i)
-                {
-                    stacks_[i] = detail::fixed_memory_stack(cur);
-                    cur += size_each;
-                }
+                    stacks_[i] = detail::fixed_memory_stack(block_start(i));
             }
 
             iteration_allocator(iteration_allocator&& other) noexcept
